@@ -10,7 +10,7 @@ from fractions import Fraction
 
 import z3
 
-from ..ctx import PyRaise
+from ..ctx import PyRaise, mark_definitional
 from ..interp import LoopSpec
 from ..objects import Instance
 from ..values import INF, Inf, ceil_real, fresh_name, to_z3
